@@ -90,7 +90,7 @@ func c20r2(p *Prog, r *Reporter) {
 						continue
 					}
 					name := p.FuncName(fn)
-					okc := typeName(recvType(fn)) == "Resources" && (fn.Name() == "Add" || fn.Name() == "Remove" || fn.Name() == "reset") || fn.Name() == "newResources"
+					okc := typeName(recvType(fn)) == "Resources" && (cname(fn) == "Add" || cname(fn) == "Remove" || cname(fn) == "reset") || cname(fn) == "newResources"
 					r.Check(okc, name, "write "+w.Path, p.Pos(w.Pos), "resource slots are written only by Add, Remove, reset and the constructor")
 				}
 			}
